@@ -3,6 +3,7 @@ package checks
 import (
 	"bytes"
 	"fmt"
+	"math/big"
 	"strings"
 
 	"github.com/amzn/ion-go/ion"
@@ -38,7 +39,29 @@ var c12Alphabet = []wcall{
 	}},
 	{"BeginSexp", func(w ion.Writer) error { return w.BeginSexp() }, func(a *refwriter.Automaton) { a.Begin(rm.Sexp) }},
 	{"EndSexp", func(w ion.Writer) error { return w.EndSexp() }, func(a *refwriter.Automaton) { a.End(rm.Sexp) }},
+	// --- the rest of the interface (layer 1 only; the first c12Core entries are layer 0) ---
+	{"WriteClob(c)", func(w ion.Writer) error { return w.WriteClob([]byte("c")) }, func(a *refwriter.Automaton) { a.Value(rm.ClobV([]byte("c")), "WriteClob") }},
+	{"WriteBlob(b)", func(w ion.Writer) error { return w.WriteBlob([]byte("b")) }, func(a *refwriter.Automaton) { a.Value(rm.BlobV([]byte("b")), "WriteBlob") }},
+	{"WriteBool(true)", func(w ion.Writer) error { return w.WriteBool(true) }, func(a *refwriter.Automaton) { a.Value(rm.BoolV(true), "WriteBool") }},
+	{"WriteFloat(1.5)", func(w ion.Writer) error { return w.WriteFloat(1.5) }, func(a *refwriter.Automaton) { a.Value(rm.FloatV(1.5), "WriteFloat") }},
+	{"WriteDecimal(1.5)", func(w ion.Writer) error { return w.WriteDecimal(ion.NewDecimal(big.NewInt(15), -1, false)) }, func(a *refwriter.Automaton) {
+		a.Value(rm.DecV(big.NewInt(15), -1, false), "WriteDecimal")
+	}},
+	{"WriteTimestamp(2000T)", func(w ion.Writer) error { return w.WriteTimestamp(drive.IonTimestamp(c12TS)) }, func(a *refwriter.Automaton) { a.Value(rm.TSV(c12TS), "WriteTimestamp") }},
+	{"WriteNullType(list)", func(w ion.Writer) error { return w.WriteNullType(ion.ListType) }, func(a *refwriter.Automaton) { a.Value(rm.NullOf(rm.List), "WriteNullType") }},
+	{"WriteBigInt(2^70)", func(w ion.Writer) error { return w.WriteBigInt(new(big.Int).Lsh(big.NewInt(1), 70)) }, func(a *refwriter.Automaton) {
+		a.Value(rm.BigV(new(big.Int).Lsh(big.NewInt(1), 70)), "WriteBigInt")
+	}},
+	{"WriteUint(7)", func(w ion.Writer) error { return w.WriteUint(7) }, func(a *refwriter.Automaton) { a.Value(rm.IntV(7), "WriteUint") }},
+	{"WriteSymbol(u)", func(w ion.Writer) error { return w.WriteSymbol(ion.NewSymbolTokenFromString("u")) }, func(a *refwriter.Automaton) { a.Value(rm.SymV("u"), "WriteSymbol") }},
+	{"Annotations(a,b)", func(w ion.Writer) error {
+		return w.Annotations(ion.NewSymbolTokenFromString("a"), ion.NewSymbolTokenFromString("b"))
+	}, func(a *refwriter.Automaton) { a.Annotation(rm.T("a")); a.Annotation(rm.T("b")) }},
 }
+
+const c12Core = 14
+
+var c12TS = rm.TS{Year: 2000, Month: 1, Day: 1, Prec: rm.PYear}
 
 func firstNonEmpty(a, b string) string {
 	if a != "" {
@@ -47,7 +70,7 @@ func firstNonEmpty(a, b string) string {
 	return b
 }
 
-var c12Configs = []string{"text", "pretty", "binary", "binary-fixed-table"}
+var c12Configs = []string{"text", "pretty", "binary", "binary-fixed-table", "text-quiet-finish"}
 
 func c12Writer(cfg int, buf *bytes.Buffer) ion.Writer {
 	switch cfg {
@@ -57,6 +80,8 @@ func c12Writer(cfg int, buf *bytes.Buffer) ion.Writer {
 		return ion.NewTextWriterOpts(buf, ion.TextWriterPretty)
 	case 2:
 		return ion.NewBinaryWriter(buf)
+	case 4:
+		return ion.NewTextWriterOpts(buf, ion.TextWriterQuietFinish)
 	}
 	return ion.NewBinaryWriterLST(buf, ion.NewLocalSymbolTable(nil, []string{"f", "a"}))
 }
@@ -95,13 +120,19 @@ func c12Body(c *mc.Ctx) {
 		maxLen = 6
 	}
 	cfg := c.Pick("config", len(c12Configs))
+	// layer 0: the 14 protocol-relevant calls at full length; layer 1: the whole interface, one call shorter
+	nAlpha := c12Core
+	if c.Pick("alphabet", 2) == 1 {
+		nAlpha = len(c12Alphabet)
+		maxLen--
+	}
 	var seq []int
 	for i := 0; i < maxLen; i++ {
 		var k int
 		if i == 0 {
-			k = c.Shard("call", len(c12Alphabet)+1)
+			k = c.Shard("call", nAlpha+1)
 		} else {
-			k = c.Pick("call", len(c12Alphabet)+1)
+			k = c.Pick("call", nAlpha+1)
 		}
 		if k == 0 {
 			break
@@ -159,7 +190,7 @@ func c12Body(c *mc.Ctx) {
 		return
 	}
 	mode := 0
-	if cfg >= 2 {
+	if cfg == 2 || cfg == 3 {
 		mode = 2
 	}
 	got, _, err := refDecode(mode, r.out, nil)
@@ -178,10 +209,10 @@ func init() {
 	mc.Register(&mc.Check{
 		ID:    "C12",
 		Title: "Any Writer call sequence ends in a correct stream or an error",
-		Rule: "EVERY call sequence of length <= L over a 14-call alphabet {WriteInt(1), WriteString, WriteSymbolFromString(t), WriteNull, WriteSymbol(token with neither text nor ID), FieldName(f), Annotation(a), BeginList/EndList, BeginSexp/EndSexp, BeginStruct/EndStruct, Finish} followed by a final Finish, x 4 writer configurations {text, pretty, binary growing table, binary fixed table lacking t}, on the real Writers. " +
+		Rule: "EVERY call sequence of length <= L over a 14-call core alphabet {WriteInt(1), WriteString, WriteSymbolFromString(t), WriteNull, WriteSymbol(token with neither text nor ID), FieldName(f), Annotation(a), BeginList/EndList, BeginSexp/EndSexp, BeginStruct/EndStruct, Finish}, and every sequence of length <= L-1 over the whole 25-call interface (adds WriteClob, WriteBlob, WriteBool, WriteFloat, WriteDecimal, WriteTimestamp, WriteNullType, WriteBigInt, WriteUint, WriteSymbol(token), Annotations(a,b)), each followed by a final Finish, x 5 writer configurations {text, pretty, text with TextWriterQuietFinish, binary growing table, binary fixed table lacking t/u/b}, on the real Writers. " +
 			"Oracle from observed return values only: no panic; after the first failing non-Finish call every later call fails; the same sequence twice gives identical bytes and results; when the final Finish returns nil the independent decoder accepts the bytes and they equal the stream the reference automaton builds from the successful calls (earlier Finish batches included). " +
 			"non-trivial = final Finish returned nil and the decoded bytes were compared with the automaton; distinct = distinct (config, per-call error pattern, output bytes) digests",
-		Bounds:      map[string]string{"quick": "L=5 (sum 14^k, k<=5 = 579,195 sequences x 4 configs)", "thorough": "L=6 (8,108,731 sequences x 4 configs)"},
+		Bounds:      map[string]string{"quick": "L=5 (579,195 core + 406,901 full-interface sequences, x 5 configs)", "thorough": "L=6 (8,108,731 core + 10,172,526 full-interface sequences, x 5 configs)"},
 		Assumptions: []string{"nil *big.Int / *Decimal arguments are Go-level misuse, not Writer calls, and are outside the alphabet", "refwriter automaton (Appendix A.2) and the independent decoders are the trusted reference"},
 		Body:        c12Body,
 		Tiers:       map[string]mc.Tier{"quick": {}, "thorough": {}},
